@@ -67,10 +67,25 @@ func corrBpfs(seed uint64, tier string, replay []string) *lib.Result {
 		bs := newFsOn(base)
 		g := &fsGen{r: r.Split(), impl: tw, opts: fsGenOpts{unclean: true, relative: true, files: true, aliasing: true}, nviews: 1}
 		escapes := []string{"/../secret", "../secret", "../../secret", "/qb/../secret", "..", "/..", "/../other/x", "../other", "/b", "/qb/tmp", "./../secret", "/tmp/../../secret", "secret", "tmp"}
+		subDirs := []string{"/../other", "../other", "/tmp/../../other", "/..", "..", "/tmp", "tmp", "/home/..", ".", "/../secret", "/tmp/..", "../../other/x", "/qb", "/"}
+		var queue []string
 		var hist lib.History
 		out0 := outside(bs.call("fs 0 snap"))
 		for i := 0; i < nl; i++ {
-			l := g.next()
+			var l string
+			if len(queue) > 0 && replay == nil {
+				l, queue = queue[0], queue[1:]
+			} else {
+				l = g.next()
+			}
+			if replay == nil && len(queue) == 0 && r.Bool(6) {
+				// Sub with an escaping / relative / ordinary directory, then calls through the view it returns
+				l = "fs 0 sub " + lib.Hex(lib.Pick(r, subDirs))
+				v := w.nextV
+				for _, q := range []string{"readfile " + lib.Hex("/secret"), "readdir 2f", "writefile " + lib.Hex("/evil") + " 58 420", "readfile " + lib.Hex("/x/../../secret"), "stat " + lib.Hex("/other")} {
+					queue = append(queue, fmt.Sprintf("fs %d %s", v, q))
+				}
+			}
 			if replay != nil {
 				if i >= len(replay) {
 					break
@@ -87,7 +102,13 @@ func corrBpfs(seed uint64, tier string, replay []string) *lib.Result {
 				continue // the empty string is not a path
 			}
 			w.leaked = ""
-			if f[1] != "0" || f[2] == "sub" || f[2] == "symlink" || f[2] == "readlink" || f[2] == "evalsymlinks" || f[2] == "link" && false ||
+			if _, ok := w.views[atoiS(f[1])]; !ok {
+				continue
+			}
+			if _, ok := tw.views[atoiS(f[1])]; !ok {
+				continue
+			}
+			if (f[2] == "sub" && f[1] != "0") || f[2] == "symlink" || f[2] == "readlink" || f[2] == "evalsymlinks" || f[2] == "link" && false ||
 				f[2] == "mkdirtemp" || f[2] == "createtemp" || f[2] == "setuser" || f[2] == "lchown" {
 				continue // BasePathFS refuses symbolic links; temp names are random; users are the base's
 			}
